@@ -1,4 +1,4 @@
-\* MC_GoChannel_b_lw.cfg2
+\* buffered, only the late waiter registration as written: must violate ReleasedWhenPartnerExists (lost wake-up)
 SPECIFICATION Spec
 CONSTANTS
   Cap = 1
